@@ -219,6 +219,10 @@ def run(P, R, tier):
     stats_binding(P, R)
     exit_chain(P, R)
     module_lifetime(P, R)
+    # the timer is handed the request itself (its callback writes into what it is given)
+    from . import c03
+    from ..report import Remap
+    c03.timer(P, Remap(R, {'C03.MPT.1': 'C10.WIRE.4'}, keys=('timer-created',)))
     uar.check(P, R, 'C10.UAR.1')
     # the table's balance rests on the container's pairing rules (anchor: src/set.c insert-replace)
     disp = c19.cleanup_callers(P, R, 'C10.SET.WMC')
